@@ -854,8 +854,10 @@ fn do_command_substitution_for_dollar(sh: &mut Shell, tokens: &mut types::Tokens
                     cr
                 }
                 Err(e) => {
+                    // the substitution is replaced by nothing below; a
+                    // `continue` here would retry the same text forever.
                     println_stderr!("cicada: {}", e);
-                    continue;
+                    types::CommandResult::error()
                 }
             };
 
@@ -905,7 +907,7 @@ fn do_command_substitution_for_dot(sh: &mut Shell, tokens: &mut types::Tokens) {
                 }
                 Err(e) => {
                     println_stderr!("cicada: {}", e);
-                    continue;
+                    types::CommandResult::error()
                 }
             };
 
@@ -953,7 +955,7 @@ fn do_command_substitution_for_dot(sh: &mut Shell, tokens: &mut types::Tokens) {
                         }
                         Err(e) => {
                             println_stderr!("cicada: {}", e);
-                            continue;
+                            types::CommandResult::error()
                         }
                     };
 
